@@ -249,12 +249,19 @@ def _tsv(case, ctx, d):
     nf = int(rng.integers(2, 6))
     fields = [FIELDS[i] for i in rng.permutation(len(FIELDS))[:nf]]
     rows = []
-    for _ in range(int(rng.integers(1, 7))):
+    long_ = case['seed'][2] % 97 == 13          # a table of a thousand or two rows in which one field is given only near the end
+    n_rows = int(rng.integers(1, 7)) if not long_ else [1100, 1600, 2100][case['seed'][1] % 3]
+    for i_ in range(n_rows):
         row = {}
         for f in fields:
+            if long_ and f == fields[-1] and i_ < n_rows - 10:
+                continue
             if rng.random() < 0.75:
                 row[f] = rand_cell(rng)
         rows.append(row)
+    if long_:
+        rows[-1][fields[-1]] = 'late'
+        ctx.cell('tsv', 'long_table_late_field')
     if rng.random() < 0.3:
         rows.insert(int(rng.integers(0, len(rows) + 1)), {})
     if rng.random() < 0.15:
@@ -270,7 +277,7 @@ def _tsv(case, ctx, d):
         return
     path = os.path.join(d, 't' + ext)
     quoted = any(isinstance(v, str) and any(c in v for c in ',\t" ') for r in rows for v in r.values())
-    desc = {'ext': ext, 'rows': rows, 'first_field': first, 'exclude': list(excl), 'seed': case['seed']}
+    desc = {'ext': ext, 'rows': rows if not long_ else rows[-12:], 'n_rows': len(rows), 'first_field': first, 'exclude': list(excl), 'seed': case['seed']}
     ctx.count(1, key=hkey('tsv', tuple(case['seed'])), nontrivial=quoted, cell=('tsv', ext))
     ctx.sample(desc, every=1201)
     r = call(write_tsv, path, rows, first_field=first, exclude_fields=excl)
